@@ -52,7 +52,7 @@ func modesFor(p string) []string {
 
 // Edit is one user edit on a root.
 type Edit struct {
-	Side string `json:"side"` // alpha | beta
+	Side string `json:"side"` // alpha | beta | both (the same edit on both roots)
 	Op   string `json:"op"`   // write, delete, mkdir, link, chmodx, ignored, fifo, badname
 	Path string `json:"path"`
 	Arg  string `json:"arg,omitempty"`
@@ -327,7 +327,12 @@ func drawEdits(rt *rapid.T, p string) []*Edit {
 	var out []*Edit
 	n := rapid.IntRange(0, 4).Draw(rt, "edits")
 	for i := 0; i < n; i++ {
-		e := &Edit{Side: rapid.SampledFrom([]string{"alpha", "beta"}).Draw(rt, "side")}
+		sides := []string{"alpha", "beta"}
+		if p == "C04" || p == "C01" || p == "C02" {
+			// The same edit on both roots (agreement without any transition).
+			sides = []string{"alpha", "beta", "alpha", "beta", "both"}
+		}
+		e := &Edit{Side: rapid.SampledFrom(sides).Draw(rt, "side")}
 		depth := rapid.IntRange(1, 2).Draw(rt, "depth")
 		var comps []string
 		for d := 0; d < depth; d++ {
@@ -348,7 +353,7 @@ func drawEdits(rt *rapid.T, p string) []*Edit {
 		case "link":
 			e.Arg = rapid.SampledFrom([]string{"a", "b/c", "nowhere"}).Draw(rt, "target")
 		}
-		if (p == "C01" || p == "C02") && (e.Op == "write" || e.Op == "delete") && rapid.IntRange(0, 4).Draw(rt, "mid") == 0 {
+		if (p == "C01" || p == "C02") && e.Side != "both" && (e.Op == "write" || e.Op == "delete") && rapid.IntRange(0, 4).Draw(rt, "mid") == 0 {
 			e.Mid = true
 		}
 		out = append(out, e)
@@ -421,6 +426,11 @@ func (r *runner) runCase(p string, c *Case) (violation string, nontrivial bool, 
 			if e.Mid {
 				continue
 			}
+			if e.Side == "both" {
+				apply(aRoot, e, &clock)
+				apply(bRoot, e, &clock)
+				continue
+			}
 			root := aRoot
 			if e.Side == "beta" {
 				root = bRoot
@@ -476,6 +486,12 @@ func (r *runner) runCase(p string, c *Case) (violation string, nontrivial bool, 
 							return fmt.Sprintf("cycle %d: %s\n alpha %s\n beta  %s\n conflicts %v", ci, v, tree.Render(post2.a), tree.Render(post2.b), conflictRoots(st2)), false, ci
 						}
 					}
+					// Wherever both roots hold the same synchronizable entry the
+					// recorded state must hold it too (otherwise the next cycle
+					// would still plan a change to the recorded state).
+					if v := recordedAgreement("", post2.a, post2.b, post2.anc); v != "" {
+						return fmt.Sprintf("cycle %d: %s\n alpha %s\n beta  %s\n archive %s", ci, v, tree.Render(post2.a), tree.Render(post2.b), tree.Render(post2.anc)), false, ci
+					}
 					if !tree.DeepEqual(pre.a, pre.b) {
 						nontrivial = true
 					}
@@ -498,6 +514,23 @@ func (r *runner) runCase(p string, c *Case) (violation string, nontrivial bool, 
 		}
 	}
 	return "", nontrivial, cycles
+}
+
+// recordedAgreement walks both roots jointly while they agree on
+// synchronizable entries and compares the archive with them.
+func recordedAgreement(path string, a, b, anc *core.Entry) string {
+	if a == nil || b == nil || !tree.IsSyncKind(a.Kind) || !tree.IsSyncKind(b.Kind) || !tree.ShallowEqual(a, b) {
+		return ""
+	}
+	if !tree.ShallowEqual(anc, a) {
+		return fmt.Sprintf("after two flushes without problems both roots hold %s at %q but the saved last-synchronized state holds %s there", tree.Render(slim(a)), path, tree.Render(slim(anc)))
+	}
+	for _, n := range tree.Names(a) {
+		if v := recordedAgreement(tree.Join(path, n), a.Contents[n], b.Contents[n], anc.Contents[n]); v != "" {
+			return v
+		}
+	}
+	return ""
 }
 
 func twoWay(mode string) bool { return strings.HasPrefix(mode, "two-way") }
